@@ -184,6 +184,8 @@ def run(ctx):
         # values that compare equal in Python but are different kinds (true / 1 / 1.0, false / 0), on keys and META fields holding one of them
         runs.append(("kinds", dict(base, MaxItems=1, MaxDepth=0, PoolA={"t", "one"}, Feat=set(), MaxReqs=1, ReqKeys={"A"},
                                    ReqVals={"t", "one", "fone", "f", "zero"}, MetaKeys={"TYPE"})))
+        runs.append(("meta_kinds", dict(base, MaxItems=1, MaxDepth=0, PoolA={"w"}, PoolC={"one", "t", "fone", "zero", "f"}, HeaderMode="metavals", HeaderMaxBody=1,
+                                        Feat=set(), MaxReqs=1, ReqKeys={"A"}, ReqVals={"t", "one", "fone", "f", "zero"}, MetaKeys={"K"})))
         # keys whose values the emitter treats specially (always quoted when they are strings)
         runs.append(("pattern_keys", dict(base, MaxItems=1, MaxDepth=0, PoolA={"w"}, Feat=set(), MaxReqs=1, ReqKeys={"PATTERN", "REGEX"},
                                           ReqVals={"w", "int", "t", "l0", "l3"}, MetaKeys={"TYPE"})))
@@ -208,7 +210,7 @@ def run(ctx):
     tr = [{"i": r["i"], "case": r["case"], "obs": [{k: v for k, v in o.items() if k != "err"} for o in r["obs"]]} for r in judged]
     fails = ctx.validate("Trace_Changes", tr, constants=dict(MaxItems=0, MaxDepth=0, MaxDev=0, PoolA=set(), PoolB=set(), PoolC=set(),
                                                              HeaderMode="plain", HeaderMaxBody=0, Feat=set(), Knobs=set(), MaxReqs=0,
-                                                             ReqKeys={"A"}, ReqVals={"w"}, MetaKeys={"TYPE", "VERSION", "NEST", "NEWF", "TAGS", "N", "FLOW", "L"}))
+                                                             ReqKeys={"A"}, ReqVals={"w"}, MetaKeys={"TYPE", "VERSION", "NEST", "NEWF", "TAGS", "N", "FLOW", "L", "K"}))
     failures = [{"i": r["i"], "case": {"reqs": r["case"]["reqs"]}, "obs": [{k: v for k, v in o.items() if k != "after"} for o in r["obs"]],
                  "text": r["text"], "fails": fails[r["i"]]} for r in judged if r["i"] in fails]
     for n, b in enumerate(absent_bad):
